@@ -11,9 +11,11 @@ when the comparison is a strict weak order (which `less_strict_total` establishe
 import Mathlib.Order.Defs.LinearOrder
 import Proofs.Lemmas.C09Order
 import Proofs.Lemmas.C09Fixed
+import Proofs.Lemmas.C09Obs
+import Proofs.C08
 
 namespace C09
-open Proc.Sort
+open Proc.Sort Proc.Projection
 
 /-! ### Comparators as sign functions of a rank into a linear (pre)order -/
 
@@ -204,5 +206,115 @@ theorem fixed_spec_nodup (pn : Bytes → NumC) (f : Field) (l : List Bytes) (h :
     · intro e; subst e; omega
 
 example : (fixedMap [[97], [98], [97]]) = [([97], 2), ([98], 1)] := by decide
+
+/-! ### First-observation order -/
+
+/-- **first_order_is_observation_order**: in every reachable state of a projection, for every
+flattened field with the default order — top-level fields and each individual key inside
+`.config` alike — the comparator orders two keys' values by their position in the list of the
+field's distinct values in order of first observation (`firstOcc` of the field's values over the
+keys in creation order, "" standing for keys made before a `.config` key was first seen), and it
+never reports equal for different values (so the string fallback is never reached for such a
+field). For every hash function. -/
+theorem first_order_is_observation_order (h : List Bytes → UInt64) (pn : Bytes → NumC) (p : Proj)
+    (hr : C08.Reachable h p) (f : Field) (hf : f ∈ p.flat) (ho : f.order = .first)
+    (a b : Nat) (ha : a < p.nodes.length) (hb : b < p.nodes.length) :
+    (f.cmp pn (p.get a f) (p.get b f) < 0 ↔
+      (firstOcc (obsSeq p f.idx)).idxOf (p.get a f) < (firstOcc (obsSeq p f.idx)).idxOf (p.get b f)) ∧
+    (f.cmp pn (p.get a f) (p.get b f) = 0 ↔ p.get a f = p.get b f) := by
+  have hranks := (reachable_inv2 h p hr).ranks f hf ho
+  have hmem : ∀ k, k < p.nodes.length → p.get k f ∈ firstOcc (obsSeq p f.idx) := by
+    intro k hk
+    rw [mem_firstOcc]
+    unfold obsSeq Proj.get
+    rw [C08.vals_eq_getElem p k hk]
+    exact List.mem_map_of_mem (List.getElem_mem hk)
+  have hc : f.cmp pn = cmpRank f.ranks := by unfold Field.cmp; rw [ho]
+  rw [hc]
+  unfold cmpRank
+  rw [hranks, get_zipIdx _ _ (hmem a ha), get_zipIdx _ _ (hmem b hb)]
+  constructor
+  · omega
+  · constructor
+    · intro e
+      have e' : (firstOcc (obsSeq p f.idx)).idxOf (p.get a f) = (firstOcc (obsSeq p f.idx)).idxOf (p.get b f) := by omega
+      have h1 := List.getElem_idxOf (List.idxOf_lt_length_of_mem (hmem a ha))
+      have h2 := List.getElem_idxOf (List.idxOf_lt_length_of_mem (hmem b hb))
+      rw [← h1, ← h2]
+      simp [e']
+    · intro e; rw [e]; omega
+
+/-- The F15 witness on the model (`.config`; results {a:1}, {a:1,b:x}, {a:2}): the key without `b`
+sorts before the key with `b=x`, before and after the third result is projected. -/
+def f15Witness : Bool :=
+  let env : Env := { configKeys := [], exclude := [] }
+  let hsh : List Bytes → UInt64 := fun _ => 0
+  let cfg : Bytes := [46, 99, 111, 110, 102, 105, 103]
+  match (makeProjection Parser.new newProjection { key := cfg, order := .first }).2 with
+  | .ok p0 =>
+    let r1 : Res := { name := [88], config := [([97], [49], true)], units := [] }
+    let r2 : Res := { name := [88], config := [([97], [49], true), ([98], [120], true)], units := [] }
+    let r3 : Res := { name := [88], config := [([97], [50], true)], units := [] }
+    let s1 := p0.project hsh env r1
+    let s2 := s1.1.project hsh env r2
+    let s3 := s2.1.project hsh env r3
+    s2.1.less (fun _ => .err) s1.2 s2.2 && s3.1.less (fun _ => .err) s1.2 s2.2 &&
+      !(s3.1.less (fun _ => .err) s2.2 s1.2) && s3.1.flat.length == 2
+  | .error _ => false
+
+example : f15Witness = true := by decide +kernel
+
+/-! ### Keys of a projection -/
+
+/-- **less_strict_total** for the keys of a projection: in every reachable state `Key.Less` is
+irreflexive, asymmetric, transitive, and total on distinct keys (distinct keys differ in a
+flattened field by `C08.key_eq_iff`). For every hash function and every `parseNum`. -/
+theorem key_less_strict_total (h : List Bytes → UInt64) (pn : Bytes → NumC) (p : Proj)
+    (hr : C08.Reachable h p) :
+    (∀ a, p.less pn a a = false) ∧
+    (∀ a b, p.less pn a b = true → p.less pn b a = false) ∧
+    (∀ a b c, p.less pn a b = true → p.less pn b c = true → p.less pn a c = true) ∧
+    (∀ a b, a < p.nodes.length → b < p.nodes.length → a ≠ b →
+      p.less pn a b = true ∨ p.less pn b a = true) := by
+  have st := less_strict_total_four_kinds pn p.flat
+  refine ⟨fun a => st.irrefl _, fun a b => st.asymm _ _, fun a b c => st.trans _ _ _, ?_⟩
+  intro a b ha hb hne
+  apply st.total
+  apply Classical.byContradiction
+  intro hno
+  apply hne
+  apply (C08.key_eq_iff h p hr a b ha hb).mpr
+  intro f hf
+  apply Classical.byContradiction
+  intro hd
+  exact hno ⟨f, hf, hd⟩
+
+/-- `SortKeys` on the keys of a projection: any two sorted permutations of the same keys (taken
+from any two arrangements) coincide, and coincide with the reference sort of the model. -/
+theorem sortKeys_independent (h : List Bytes → UInt64) (pn : Bytes → NumC) (p : Proj)
+    (hr : C08.Reachable h p) (in₁ in₂ out₁ out₂ : List Nat) (hv : ∀ k ∈ in₁, k < p.nodes.length)
+    (hin : in₁.Perm in₂)
+    (hs₁ : Sorted (p.less pn) out₁) (hp₁ : out₁.Perm in₁)
+    (hs₂ : Sorted (p.less pn) out₂) (hp₂ : out₂.Perm in₂) :
+    out₁ = out₂ ∧ out₁ = p.sortKeys pn in₁ := by
+  obtain ⟨_, hasym, htrans, htotal⟩ := key_less_strict_total h pn p hr
+  have hs₃ : Sorted (p.less pn) (p.sortKeys pn in₁) := sortBy_sorted _ hasym htrans _
+  have hp₃ : (p.sortKeys pn in₁).Perm in₁ := sortBy_perm _ _
+  have antisymm : ∀ a b, a ∈ in₁ → b ∈ in₁ → p.less pn b a = false → p.less pn a b = false → a = b := by
+    intro a b ha hb h1 h2
+    apply Classical.byContradiction
+    intro hne
+    rcases htotal a b (hv a ha) (hv b hb) hne with h | h
+    · rw [h] at h2; exact absurd h2 (by simp)
+    · rw [h] at h1; exact absurd h1 (by simp)
+  constructor
+  · refine List.Perm.eq_of_pairwise (le := fun x y => p.less pn y x = false) ?_ hs₁ hs₂
+      (hp₁.trans (hin.trans hp₂.symm))
+    intro a b ha hb
+    exact antisymm a b (hp₁.subset ha) (hin.symm.subset (hp₂.subset hb))
+  · refine List.Perm.eq_of_pairwise (le := fun x y => p.less pn y x = false) ?_ hs₁ hs₃
+      (hp₁.trans hp₃.symm)
+    intro a b ha hb
+    exact antisymm a b (hp₁.subset ha) (hp₃.subset hb)
 
 end C09
